@@ -172,6 +172,21 @@ theorem step_spec (m : Mirror K) (op : Op K) (h : Inv m) :
     by_cases hj : j < m.heap.length <;> simp [hj]
   | _ => simp [step, Spec.step, spec]
 
+/-- the driver's lockstep: stepping the specification alongside the cached mirror is the same as
+projecting the cached mirror's state -/
+theorem run_spec_state (m : Mirror K) (ops : List (Op K)) (h : Inv m) :
+    spec (run m ops).1 = (spec m).after ops := by
+  induction ops generalizing m with
+  | nil => rfl
+  | cons op rest ih =>
+    simp only [run, Spec.after]
+    rw [ih _ (step_inv m op h), (step_spec m op h).1]
+
+theorem run_inv (m : Mirror K) (ops : List (Op K)) (h : Inv m) : Inv (run m ops).1 := by
+  induction ops generalizing m with
+  | nil => exact h
+  | cons op rest ih => exact ih _ (step_inv m op h)
+
 theorem run_spec (m : Mirror K) (ops : List (Op K)) (h : Inv m) :
     (run m ops).2 = (spec m).run ops := by
   induction ops generalizing m with
